@@ -11,14 +11,17 @@ from .c09 import BAD
 
 @st.composite
 def cases(draw, tier):
-    proj = draw(sgen.graphs({"max_leaf": 4, "max_mid": 4, "p_gate": 85, "p_csum": 10, "p_always": 30,
+    proj = draw(sgen.graphs({"max_leaf": 4, "max_mid": 4, "p_gate": 85, "p_csum": 25, "p_always": 20,
                              "p_fail": 15}))
+    allif = draw(st.integers(0, 99)) < 40      # every invocation is a redo-ifchange: nothing is ever forced
     L = proj["layers"]
     allt = L["tops"] + L["mids"] + L["leaves"]
     ninv = draw(st.integers(2, 4))
     invs = []
     for i in range(ninv):
         kind = "redo" if (i == 0 and draw(st.integers(0, 1))) or draw(st.integers(0, 4)) == 0 else "ifchange"
+        if allif:
+            kind = "ifchange"
         ts = sgen._subset(draw, allt, 1, 3)
         env = {"REDO_LOG": "0"} if draw(st.integers(0, 2)) else {}
         if draw(st.integers(0, 3)) == 0:
@@ -32,6 +35,7 @@ def cases(draw, tier):
         abort = {"inv": draw(st.integers(0, ninv - 1)), "sig": draw(st.sampled_from(["INT", "TERM"])),
                  "after": draw(st.integers(1, 6))}
     return {"project": proj, "invs": invs, "schedule": draw(sgen.schedule()), "failing": failing, "abort": abort,
+            "prebuild": draw(st.integers(0, 99)) < 45,
             "sopts": {"seed": draw(st.integers(0, 2 ** 31 - 1)), "coincide": draw(st.integers(0, 2)) == 0, "token_games": False,
                       "patient": draw(st.integers(0, 1)) == 1,
                       "start_first": draw(st.integers(0, 2)) > 0}}
@@ -45,6 +49,19 @@ class Runner(sched.SchedRunner):
         self.abort = case.get("abort")
         self.steps = 0
         self.aborted = False
+        self.ppid_at_start = {}    # pid -> ppid, sampled while the processes are alive (walk up to the invocation)
+        orig_add = self.tl.add
+
+        def add(kind, target, pid, extra):
+            orig_add(kind, target, pid, extra)
+            if kind == "S":
+                cur, hops = extra, 0
+                while cur and cur > 1 and hops < 40 and cur not in self.ppid_at_start:
+                    _, _, pp, _ = sched.proc_state(cur)
+                    self.ppid_at_start[cur] = pp
+                    cur = pp
+                    hops += 1
+        self.tl.add = add
 
     def gate_step(self, g, gates):
         self.steps += 1
@@ -66,6 +83,20 @@ def run_case(case, tier):
     out = hist.Outcome()
     r = Runner(case, tag="c06")
     try:
+        if case.get("prebuild"):
+            # a complete serial build first, then the common source is edited: the contended commands are REBUILDS
+            # (maybe-dirty targets above checksummed ones take the out-of-band path through redo-unlocked)
+            L = case["project"]["layers"]
+            for f in case.get("failing", []):
+                r.disk.set_fail(f, False)
+            pr = runner.run_cmd(r.disk, ["redo-ifchange"] + L["tops"] + L["mids"], env_extra={"REDO_LOG": "0"})
+            if pr.rc != 0:
+                raise runner.Inconclusive("prebuild failed")
+            r.disk.take_trace()
+            r.disk.write("s0", hist.P.source_content("s0", 1))
+            for f in case.get("failing", []):
+                r.disk.set_fail(f, True)
+            out.events["c06:rebuild-after-edit"] += 1
         r.run()
         out.commands = len(r.invs)
         out.scripts = sum(r.tl.starts.values())
@@ -104,7 +135,47 @@ def run_case(case, tier):
                              "detail": dict(ctx, overlaps=r.tl.overlaps[:5], texts=[t[-800:] for t in texts]),
                              "sig": {"symptom": "overlap", "signalled": bool(r.aborted)}}
             return out
-        # record-before-decide: all later invocations are redo-ifchange => a target that completed successfully
+        # record-before-decide, decidable form: when EVERY invocation is a redo-ifchange (nothing is forced), no
+        # script fails, nobody is signalled and nothing changes meanwhile, a target whose script completed
+        # successfully has been recorded before anybody else may look at it -- so no later-or-same invocation may
+        # run it again (redo-always targets and everything above them are legitimately rebuilt once per run)
+        all_if = all(i.spec["kind"] != "redo" for i in r.invs)
+        if all_if and not case.get("failing") and not r.aborted:
+            mm = hist.M.Model(case["project"])
+            dof = case["project"]["dofiles"]
+
+            def has_always(t):
+                return any(q in mm.targets and any(stt[0] == "always" for stt in dof[q + ".do"]["body"])
+                           for q in mm.closure(t))
+            sess = {}
+            first_ok = {}
+            again = []
+            for seq, kind, target, pid, extra in r.tl.ev:
+                if kind == "S":
+                    own = extra
+                    inv_i = None
+                    cur, hops = own, 0
+                    while cur and cur > 1 and hops < 40 and inv_i is None:
+                        for inv in r.invs:
+                            if inv.proc is not None and inv.proc.pid == cur:
+                                inv_i = inv.idx
+                        cur = r.ppid_at_start.get(cur)
+                        hops += 1
+                    sess[pid] = inv_i
+                    if target in first_ok and not has_always(target):
+                        fi = first_ok[target]
+                        if inv_i is not None and fi[1] is not None and inv_i >= fi[1]:
+                            again.append({"target": target, "first_built_by_inv": fi[1], "again_by_inv": inv_i,
+                                          "seq": seq, "first_done_seq": fi[0]})
+                elif kind == "X" and extra == 0:
+                    first_ok.setdefault(target, (seq, sess.get(pid)))
+            # NOT an oracle (tried, withdrawn -- DESIGN 10.3 #13): with concurrent invocations redo orders changes by
+            # run id, so a source whose new stamp was first noticed by the newer run makes a target built meanwhile
+            # by the older run look older than its source, and it is conservatively rebuilt. Counted only.
+            out.events["c06:all-ifchange-scenario"] += 1
+            if again:
+                out.events["c06:all-ifchange-scenario/rebuilt-after-success(conservative run-id ordering)"] += 1
+        # (older heuristic kept as a counter only) all later invocations are redo-ifchange => a target that completed successfully
         # (X rc 0) must not be started again afterwards by a redo-ifchange process of a *later* invocation.
         # With only redo-ifchange later invocations and nothing changing, "started again after a successful
         # completion" can only be legitimate for the first invocation's forced `redo` of its own command-line
